@@ -689,8 +689,13 @@ def c19_wrappers(stats):
         except Exception as e:  # noqa: BLE001
             stats.case(req, True, part)
             stats.fail(f"C19:wrapper:{name}:wrong-exception-type", f"{type(e).__name__}: {e} for {req}", req, part)
-        nontrivial = not rep.get("ok", False) or any(isinstance(v, str) for v in json.dumps(req))
-        stats.case(req, True if not rep.get("ok", True) else bool(nontrivial), part)
+        def special(v):
+            if isinstance(v, (list, tuple)):
+                return any(special(x) for x in v)
+            return v in ("NaN", "inf", "-inf")
+        # non-trivial: the core rejects the arguments, or an argument is non-finite
+        nontrivial = (not rep.get("ok", False)) or special(req.get("bounds"))
+        stats.case(req, bool(nontrivial), part)
         stats.label("wrapper:" + name)
         if "panic" in rep:
             stats.discard("core constructor panicked (C12 territory)")
